@@ -16,6 +16,7 @@ import SpectraVerif.Gen.Status
 import SpectraVerif.Gen.Restart
 import SpectraVerif.Proofs.AccessLemmas
 import SpectraVerif.Gen.Conv
+import SpectraVerif.Proofs.CopyLemmas
 import SpectraVerif.Model.HermSolver
 import SpectraVerif.Model.GenSolver
 
@@ -427,6 +428,110 @@ theorem c05_flags_from_source_gen (op : Arnoldi.Op α) (c : Cfg) (eps23 : α) (b
   simp [convFlags, GenSolver.genKern, GenSolver.convTest, Gen.Conv.genNumConverged_flag]
 
 end conv
+
+/-! ### The copy loops of `retrieve_ritzpair` / `sort_ritzpair` as the source has them (`Gen.Copy`) -/
+
+section copy
+open CopyLemmas
+
+local macro "range_if" : tactic =>
+  `(tactic| (apply List.map_congr_left; intro i hi; have hlt := List.mem_range.mp hi; rw [if_pos ⟨by omega, by omega⟩]; simp))
+
+/--
+  **`retrieve_ritzpair` as written in `HermEigsBase.h`**: whenever the small eigen-solver and the selection sort succeed, the
+  Ritz values, the Ritz estimates (last row of the eigenvector matrix, row `m_ncv - 1`) and the choice of eigenvector columns the
+  model's `retrieve` stores are exactly what the source's two loops leave in `m_ritz_val[0..ncv)`, `m_ritz_est[0..ncv)` and
+  `m_ritz_vec.col(0..nev)` — for every kernel behaviour, every index vector and every prior content of the targets. -/
+theorem c05_retrieve_from_source {α : Type} [Add α] [Sub α] [Mul α] [Div α] [Neg α] [Sc α]
+    {φ κ β τ ω : Type} (K : Kern φ α α κ β τ ω) (c : Cfg) (sel : Int) (s : St φ α α κ)
+    (evals lastRow : List α) (cols : List κ) (ind : List Nat)
+    (he : K.eig s.fac = .ok (evals, lastRow, cols)) (hs : K.select sel evals c.ncv = .ok ind)
+    (v0 e0 : Int → α) (s0 : Int → Int) :
+    let r := Gen.Copy.hermRetrieve_loops (c.nev : Int) (c.ncv : Int) (fun i => evals.getD i.toNat K.zeroρ)
+                (fun i => lastRow.getD i.toNat K.zeroε) (fun i => ((ind.getD i.toNat 0 : Nat) : Int)) v0 e0 s0
+    (retrieve K c sel s).1.ritzVal = (List.range c.ncv).map (fun (i : Nat) => r.1 i) ∧
+    (retrieve K c sel s).1.ritzEst = (List.range c.ncv).map (fun (i : Nat) => r.2.1 i) ∧
+    (retrieve K c sel s).1.ritzVec = (List.range c.nev).map (fun (i : Nat) => cols.getD (r.2.2 i).toNat K.zeroκ) ∧
+    Gen.Copy.hermRetrieve_loops_estRow (c.ncv : Int) = (c.ncv : Int) - 1 := by
+  intro r
+  have hr : r = _ := hermRetrieve_spec c.nev c.ncv _ _ _ v0 e0 s0
+  simp only [retrieve, he, hs, hr]
+  refine ⟨?_, ?_, ?_, rfl⟩
+  · range_if
+  · range_if
+  · range_if
+
+/-- the same for `GenEigsBase::retrieve_ritzpair` -/
+theorem c05_retrieve_from_source_gen {α : Type} [Add α] [Sub α] [Mul α] [Div α] [Neg α] [Sc α]
+    {φ κ β τ ω : Type} (K : Kern φ (α × α) (α × α) κ β τ ω) (c : Cfg) (sel : Int) (s : St φ (α × α) (α × α) κ)
+    (evals lastRow : List (α × α)) (cols : List κ) (ind : List Nat)
+    (he : K.eig s.fac = .ok (evals, lastRow, cols)) (hs : K.select sel evals c.ncv = .ok ind)
+    (v0 e0 : Int → α × α) (s0 : Int → Int) :
+    let r := Gen.Copy.genRetrieve_loops (c.nev : Int) (c.ncv : Int) (fun i => evals.getD i.toNat K.zeroρ)
+                (fun i => lastRow.getD i.toNat K.zeroε) (fun i => ((ind.getD i.toNat 0 : Nat) : Int)) v0 e0 s0
+    (retrieve K c sel s).1.ritzVal = (List.range c.ncv).map (fun (i : Nat) => r.1 i) ∧
+    (retrieve K c sel s).1.ritzEst = (List.range c.ncv).map (fun (i : Nat) => r.2.1 i) ∧
+    (retrieve K c sel s).1.ritzVec = (List.range c.nev).map (fun (i : Nat) => cols.getD (r.2.2 i).toNat K.zeroκ) ∧
+    Gen.Copy.genRetrieve_loops_estRow (c.ncv : Int) = (c.ncv : Int) - 1 := by
+  intro r
+  have hr : r = _ := genRetrieve_spec c.nev c.ncv _ _ _ v0 e0 s0
+  simp only [retrieve, he, hs, hr]
+  refine ⟨?_, ?_, ?_, rfl⟩
+  · range_if
+  · range_if
+  · range_if
+
+/--
+  **`sort_ritzpair` as written in `HermEigsBase.h`**: when the final sort succeeds with index vector `ind`, the values, the
+  vector columns and the convergence flags the model's `sortRitz` stores are what the source's single loop writes to
+  `new_ritz_val[0..nev)`, `new_ritz_vec.col(0..nev)`, `new_ritz_conv[0..nev)` (which the three `swap`s — checked by the
+  translator — then install): one index vector for all three, for every kernel and every state. -/
+theorem c05_sort_from_source {α : Type} [Add α] [Sub α] [Mul α] [Div α] [Neg α] [Sc α]
+    {φ ε κ β τ ω : Type} (K : Kern φ α ε κ β τ ω) (c : Cfg) (rule : Int) (s : St φ α ε κ) (ind : List Nat)
+    (hs : K.sortIdx rule (mapHead c.nev K.backTransform s.ritzVal) c.nev = .ok ind)
+    (v0 : Int → α) (s0 : Int → Int) (c0 : Int → Bool) :
+    let vals := mapHead c.nev K.backTransform s.ritzVal
+    let r := Gen.Copy.hermSort_loop (c.nev : Int) (c.ncv : Int) (fun i => vals.getD i.toNat K.zeroρ)
+                (fun i => s.ritzConv.getD i.toNat false) (fun i => ((ind.getD i.toNat 0 : Nat) : Int)) v0 s0 c0
+    (sortRitz K c rule s).1.ritzVal = (List.range c.ncv).map (fun (i : Nat) => if i < c.nev then r.1 i else K.zeroρ) ∧
+    (sortRitz K c rule s).1.ritzVec = (List.range c.nev).map (fun (i : Nat) => s.ritzVec.getD (r.2.1 i).toNat K.zeroκ) ∧
+    (sortRitz K c rule s).1.ritzConv = (List.range c.nev).map (fun (i : Nat) => r.2.2 i) := by
+  intro vals r
+  have hr : r = _ := hermSort_spec c.nev c.ncv _ _ _ v0 s0 c0
+  simp only [sortRitz, hs, hr]
+  refine ⟨?_, ?_, ?_⟩
+  · apply List.map_congr_left
+    intro i _
+    by_cases h : i < c.nev
+    · rw [if_pos h, if_pos h, if_pos ⟨by omega, by omega⟩]; simp [vals]
+    · rw [if_neg h, if_neg h]
+  · range_if
+  · range_if
+
+/-- the same for `GenEigsBase::sort_ritzpair` -/
+theorem c05_sort_from_source_gen {α : Type} [Add α] [Sub α] [Mul α] [Div α] [Neg α] [Sc α]
+    {φ ε κ β τ ω : Type} (K : Kern φ (α × α) ε κ β τ ω) (c : Cfg) (rule : Int) (s : St φ (α × α) ε κ) (ind : List Nat)
+    (hs : K.sortIdx rule (mapHead c.nev K.backTransform s.ritzVal) c.nev = .ok ind)
+    (v0 : Int → α × α) (s0 : Int → Int) (c0 : Int → Bool) :
+    let vals := mapHead c.nev K.backTransform s.ritzVal
+    let r := Gen.Copy.genSort_loop (c.nev : Int) (c.ncv : Int) (fun i => vals.getD i.toNat K.zeroρ)
+                (fun i => s.ritzConv.getD i.toNat false) (fun i => ((ind.getD i.toNat 0 : Nat) : Int)) v0 s0 c0
+    (sortRitz K c rule s).1.ritzVal = (List.range c.ncv).map (fun (i : Nat) => if i < c.nev then r.1 i else K.zeroρ) ∧
+    (sortRitz K c rule s).1.ritzVec = (List.range c.nev).map (fun (i : Nat) => s.ritzVec.getD (r.2.1 i).toNat K.zeroκ) ∧
+    (sortRitz K c rule s).1.ritzConv = (List.range c.nev).map (fun (i : Nat) => r.2.2 i) := by
+  intro vals r
+  have hr : r = _ := genSort_spec c.nev c.ncv _ _ _ v0 s0 c0
+  simp only [sortRitz, hs, hr]
+  refine ⟨?_, ?_, ?_⟩
+  · apply List.map_congr_left
+    intro i _
+    by_cases h : i < c.nev
+    · rw [if_pos h, if_pos h, if_pos ⟨by omega, by omega⟩]; simp [vals]
+    · rw [if_neg h, if_neg h]
+  · range_if
+  · range_if
+
+end copy
 
 /-! ### Non-vacuity and the refuted full-strength statement -/
 
